@@ -562,6 +562,14 @@ def do_use(env, st, step):
             str(c)
         elif what == "quantity":
             c.Quantity(arg)
+        elif what == "siblings":
+            # the library's other table objects share helpers (datum.print_variables, Datum) with the constants
+            import qcelemental as qcel
+
+            qcel.covalentradii.string_representation()
+            qcel.vdwradii.string_representation()
+            qcel.periodictable.to_mass("kr84", return_decimal=True)
+            qcel.covalentradii.get("C", return_tuple=True).to_units("bohr")
         return "ok"
     except Exception as e:  # noqa
         return "raised:" + type(e).__name__
@@ -628,19 +636,25 @@ def sweep_cases(env, seq, upto: int, target: int, cset: str, why: str):
 def make_sequences(rng, ctx: Ctx):
     """[steps]: fixed regression orders first (2014 after 2018 is the seeded mutable-default leak), then random ones"""
     N = lambda how: {"do": "new", "how": how}  # noqa: E731
+    U = lambda on, what: {"do": "use", "on": on, "what": what, "arg": None}  # noqa: E731
     fixed = [
         [N("2018"), N("2014")],
         [N("2014"), N("2018")],
         [N("2014"), N("2014")],
         [N("2018"), N("2018")],
         [N("2018"), N("default-arg"), N("2018"), N("2014")],
+        # other public calls on existing objects, THEN fresh contexts: whatever those calls leave behind in the process (thread-level
+        # decimal context, module-level tables, caches) must not reach the constants of contexts constructed afterwards
+        [N("2014"), U(0, "repr"), N("2014"), N("2018")],
+        [U("default", "repr"), N("2018"), U("2018", "repr"), N("default-arg")],
+        [U("default", "siblings"), N("2014"), N("2018")],
     ]
     names14 = ["Hartree energy", "molar Planck constant times c", "hartree2kcalmol", "Bohr radius", "electric constant", "calorie-joule relationship"]
     convs = [("bohr", "angstrom"), ("hartree", "kcal/mol"), ("hartree", "wavenumber")]
 
     def rand_use(n_inst):
         on = rng.choice(["default", "2014", "2018"] + list(range(n_inst)) * 2)
-        what = rng.choice(["get", "get", "tuple", "attr", "item", "repr", "quantity", "conv", "ureg"])
+        what = rng.choice(["get", "get", "tuple", "attr", "item", "repr", "repr", "siblings", "quantity", "conv", "ureg"])
         nm = rng.choice(names14)
         arg = {"get": mixed(rng, nm), "tuple": nm.upper(), "attr": mangle(nm), "item": nm.lower(), "quantity": "1.5 bohr",
                "conv": list(rng.choice(convs))}.get(what)
